@@ -35,7 +35,7 @@ import selectors as real_selectors
 import socketserver
 import comm.server as server
 
-SETTLE_SPINS = 750      # x 2 ms
+SETTLE_SPINS = 2500     # x 2 ms: upper bound for one settle
 
 
 class _Abort(BaseException):
@@ -53,22 +53,40 @@ class Inconclusive(_Ignore):
     in a concrete run it surfaces as a harness error; never a verdict."""
 
 
+_BASELINE = set(t.ident for t in threading.enumerate())     # threads that exist before any run (none of them is the code's)
+_ACTIVE = [None]                                            # the scheduler of the run in progress
+_ORIG_COND = (threading.Condition.wait, threading.Condition.notify, threading.Condition.notify_all)
+QUIET_SAMPLES = 25       # x 2 ms without the thread's frame moving: it sits in a blocking call
+
+
 class Sched:
+    """Decides, at every decision point, which party runs next.  All decisions are taken in the main thread.
+
+    Parties: threads parked at a decision point (device exchange, socket read / write), threads waiting on a threading.Condition
+    (Future.result, Event.wait, Queue.get ... all go through Condition.wait, which is rebound for the run): runnable once
+    notified and, if the wait has a time-out, also through the option "its time-out expires" - time is not modelled, a time-out
+    may expire at any decision point.  Threads blocked in anything else (a contended lock, a C-level queue) are recognised by
+    their frame not moving and are simply not runnable until they show up at a decision point."""
     def __init__(self, choices):
         self.choices = list(choices)
         self.ci = 0
         self.main = threading.get_ident()
         self.cv = threading.Condition()
-        self.blocked = {}          # thread ident -> label, waiting for a grant at a decision point
+        self.blocked = {}          # thread ident -> label: parked at a decision point
+        self.waiting = {}          # thread ident -> {"cond", "timed", "notified"}: inside a modelled Condition.wait
+        self.main_wait = None      # the same record for the main thread
         self.order = {}            # thread ident -> number (order of first appearance: deterministic)
         self.granted = None
-        self.baseline = set(t.ident for t in threading.enumerate())
         self.active = False
         self.aborting = False
         self.decisions = []        # (options, chosen) - for the replay notes
         self.exhausted = False
         self.max_runnable = 1
-        self.elsewhere = set()
+
+    def number(self, tid):
+        if tid not in self.order:
+            self.order[tid] = len(self.order)
+        return self.order[tid]
 
     # ---- called by any thread at a decision point
     def yield_point(self, label):
@@ -79,47 +97,98 @@ class Sched:
             self.run_others(allow_self=True)
             return
         with self.cv:
-            if tid not in self.order:
-                self.order[tid] = len(self.order)
+            self.number(tid)
             self.blocked[tid] = label
-            self.cv.notify_all()
-            while self.granted != tid and not self.aborting:
-                self.cv.wait()
-            if self.aborting:
-                raise _Abort()
-            self.granted = None
+            self.park(tid)
+
+    def park(self, tid):
+        """(cv held) wait for the grant."""
+        self.cv.notify_all()
+        while self.granted != tid and not self.aborting:
+            _ORIG_COND[0](self.cv)
+        if self.aborting:
+            raise _Abort()
+        self.granted = None
+
+    # ---- modelled threading.Condition
+    def cond_wait(self, cond, timed):
+        """The calling thread has released the condition's lock.  Returns True iff it was notified (False: the time-out expired)."""
+        tid = threading.get_ident()
+        rec = {"cond": cond, "timed": timed, "notified": False}
+        if tid != self.main:
+            with self.cv:
+                self.number(tid)
+                self.waiting[tid] = rec
+                self.park(tid)
+            return rec["notified"]
+        self.main_wait = rec
+        try:
+            while not rec["notified"]:
+                pick = self.run_others(allow_self=False, extra=[("timeout", "main")] if timed else [])
+                if pick is None:
+                    if rec["notified"]:
+                        break
+                    raise Inconclusive("the serving thread waits without time-out for something no runnable thread can provide")
+                if pick == ("timeout", "main"):
+                    break
+            return rec["notified"]
+        finally:
+            self.main_wait = None
+
+    def cond_notify(self, cond, n):
+        with self.cv:
+            recs = [self.waiting[t] for t in sorted(self.waiting, key=lambda t: self.order[t])]
+            if self.main_wait is not None:
+                recs.append(self.main_wait)
+            for rec in recs:
+                if n <= 0:
+                    break
+                if rec["cond"] is cond and not rec["notified"]:
+                    rec["notified"] = True
+                    n -= 1
 
     # ---- main thread only
     def others_alive(self):
-        return [t for t in threading.enumerate() if t.ident not in self.baseline and t.ident != self.main and t.is_alive()]
+        # (enumerate() = running threads + threads whose start() is in progress; those have no ident yet)
+        return [t for t in threading.enumerate() if t.ident is None or (t.ident not in _BASELINE and t.ident != self.main)]
 
     def settle(self):
-        """Wait until every thread the code under test started is parked at a decision point (or has ended)."""
+        """Wait until every other thread is parked, waiting on a condition, ended - or sits in some other blocking call."""
+        import sys
+        quiet = {}
         spins = 0         # (no clock: CrossHair models the time functions as nondeterministic inputs)
         with self.cv:
             while True:
-                live = self.others_alive()
-                loose = [t for t in live if t.ident not in self.blocked and t.ident not in self.elsewhere]
+                loose = [t for t in self.others_alive() if t.ident not in self.blocked and t.ident not in self.waiting]
                 if not loose:
                     return
+                frames = sys._current_frames()
+                all_quiet = True
+                for t in loose:
+                    f = frames.get(t.ident) if t.ident is not None else None
+                    if f is None:
+                        all_quiet = False          # not running yet (or just ending): wait for it
+                        continue
+                    key = (id(f), f.f_lasti)
+                    prev = quiet.get(t.ident)
+                    quiet[t.ident] = (key, prev[1] + 1) if prev is not None and prev[0] == key else (key, 0)
+                    if quiet[t.ident][1] < QUIET_SAMPLES:
+                        all_quiet = False
+                del frames
                 spins += 1
-                if spins > SETTLE_SPINS:
-                    # blocked on something that is not a decision point (a lock, Event.wait, join ...): not runnable for us
-                    for t in loose:
-                        self.elsewhere.add(t.ident)
-                        import sys
-                        import traceback
-                        fr = sys._current_frames().get(t.ident)
-                        note("thread not at a decision point", "".join(traceback.format_stack(fr))[-900:] if fr else "?")
+                if all_quiet or spins > SETTLE_SPINS:
                     return
-                self.cv.wait(0.002)
+                _ORIG_COND[0](self.cv, 0.002)
 
-    def runnable_workers(self):
+    def options(self):
         with self.cv:
-            for tid in list(self.elsewhere):
-                if tid in self.blocked:
-                    self.elsewhere.discard(tid)
-            return sorted(self.blocked.keys(), key=lambda t: self.order[t])
+            out = [("thread", self.order[t]) for t in self.blocked]
+            for t, rec in self.waiting.items():
+                if rec["notified"]:
+                    out.append(("thread", self.order[t]))
+                elif rec["timed"]:
+                    out.append(("timeout", self.order[t]))
+            return sorted(out, key=lambda o: (o[1], o[0]))
 
     def choose(self, options):
         self.max_runnable = max(self.max_runnable, len(options))
@@ -131,29 +200,45 @@ class Sched:
         else:
             c = self.choices[self.ci]
             self.ci += 1
-            pick = options[-1]
-            for k in range(len(options) - 1):
-                if c == k:                 # symbolic: one path per option
-                    pick = options[k]
-                    break
+            pick = options[self.split(c, len(options))]
         self.decisions.append(([str(o) for o in options], str(pick)))
         return pick
 
+    @staticmethod
+    def split(c, n):
+        """Index 0..n-1 selected by the schedule variable c (c >= n-1 selects the last): a case split on a SYMBOLIC int, i.e. one
+        CrossHair path per option.  Everything else in a run is concrete and is executed natively; symbolic tracing is
+        switched back on just for this comparison."""
+        from sim.base import in_crosshair_thread
+        if in_crosshair_thread():
+            from crosshair.tracers import ResumedTracing
+            with ResumedTracing():
+                for k in range(n - 1):
+                    if c == k:
+                        return k
+                return n - 1
+        for k in range(n - 1):
+            if c == k:
+                return k
+        return n - 1
+
     def grant(self, tid):
         with self.cv:
-            del self.blocked[tid]
+            self.blocked.pop(tid, None)
+            self.waiting.pop(tid, None)
             self.granted = tid
             self.cv.notify_all()
         self.settle()
 
     def run_others(self, allow_self, extra=()):
-        """Decision loop.  Returns 'self' or one of `extra` when that option is chosen; lets a worker run otherwise."""
+        """Decision loop.  Returns 'self' or one of `extra` when that option is chosen; lets another thread run otherwise.
+        None: nothing at all is runnable."""
         while True:
             self.settle()
-            opts = (["self"] if allow_self else []) + list(extra) + [("thread", self.order[t]) for t in self.runnable_workers()]
+            if self.main_wait is not None and self.main_wait["notified"]:
+                return None
+            opts = (["self"] if allow_self else []) + list(extra) + self.options()
             if not opts:
-                if self.wait_for_elsewhere():
-                    continue               # a thread that was blocked on something else has moved on
                 return None
             pick = self.choose(opts)
             if pick == "self" or pick in extra:
@@ -161,27 +246,52 @@ class Sched:
             tid = [t for t, n in self.order.items() if n == pick[1]][0]
             self.grant(tid)
 
-    def wait_for_elsewhere(self):
-        """Nothing is runnable at a decision point, but threads blocked on something else (a lock ...) are alive: give them
-        time to reach a decision point or to end.  True iff the situation changed."""
-        spins = 0
-        with self.cv:
-            while spins < SETTLE_SPINS:
-                alive = [t.ident for t in self.others_alive()]
-                if any(t in self.blocked for t in alive):
-                    return True
-                if not any(t in self.elsewhere for t in alive):
-                    return False
-                spins += 1
-                self.cv.wait(0.002)
-        return False
-
     def abort(self):
         with self.cv:
             self.aborting = True
             self.cv.notify_all()
         for t in self.others_alive():
-            t.join(1.0)
+            if t.ident in self.order:
+                t.join(0.5)
+
+
+def _cond_wait(self, timeout=None):
+    s = _ACTIVE[0]
+    if s is None or not s.active or self is s.cv or s.aborting:
+        return _ORIG_COND[0](self, timeout)
+    if not self._is_owned():
+        raise RuntimeError("cannot wait on un-acquired lock")
+    saved = self._release_save()
+    try:
+        return s.cond_wait(self, timeout is not None)
+    finally:
+        self._acquire_restore(saved)
+
+
+def _cond_notify(self, n=1):
+    s = _ACTIVE[0]
+    if s is not None and s.active and self is not s.cv:
+        s.cond_notify(self, n)
+    return _ORIG_COND[1](self, n)
+
+
+def _cond_notify_all(self):
+    s = _ACTIVE[0]
+    if s is not None and s.active and self is not s.cv:
+        s.cond_notify(self, 1 << 30)
+    return _ORIG_COND[2](self)
+
+
+def install_conditions(sched):
+    _ACTIVE[0] = sched
+    threading.Condition.wait = _cond_wait
+    threading.Condition.notify = _cond_notify
+    threading.Condition.notify_all = _cond_notify_all
+
+
+def uninstall_conditions():
+    _ACTIVE[0] = None
+    threading.Condition.wait, threading.Condition.notify, threading.Condition.notify_all = _ORIG_COND
 
 
 # ------------------------------------------------------------------ simulated socket layer
@@ -333,15 +443,18 @@ def requests_catalogue():
     adv = valid_request("advanceBlockchain", 0)
     return [("sign (authorized)", sign), ("blockchainState", valid_request("blockchainState")),
             ("advanceBlockchain", adv), ("signerHeartbeat", valid_request("signerHeartbeat")),
-            ("getPubKey", valid_request("getPubKey")), ("sign (hash)", sign2)]
+            ("getPubKey", valid_request("getPubKey")), ("sign (hash)", sign2),
+            ("advanceBlockchain (2 blocks)", valid_request("advanceBlockchain", 1))]
 
 
 CATALOGUE = requests_catalogue()
+FAULTY = {11, 12}     # indices into SETS served by the device that stops answering at the second block of an advance
 PAIRS = [(0, 1), (0, 2), (2, 1), (3, 0), (0, 5), (4, 3)]
 TRIPLES = [(0, 1, 2), (3, 0, 4), (0, 5, 2)]
-SETS = PAIRS + TRIPLES
+SETS = PAIRS + TRIPLES + [(0, 1, 2, 3), (2, 5, 4, 0)]                    # 2, 3 and 4 clients
+SETS = SETS + [(1, 6, 1), (6, 1, 4, 1)]      # (FAULTY) a state query before and after a two-block advance the device abandons half way
 if os.environ.get("VERIF_TIER") == "thorough":
-    SETS = SETS + [(2, 0, 3), (1, 2, 5), (0, 0, 1), (0, 1, 2, 3), (2, 5, 4, 0)]      # more triples (one with two equal requests), 4 clients
+    SETS = SETS + [(2, 0, 3), (1, 2, 5), (0, 0, 1), (0, 0, 0, 0), (3, 2, 1, 0), (0, 1, 2, 3, 4)]    # (equal requests too), 5 clients
 
 
 class _NotingLogger:
@@ -362,29 +475,143 @@ def line_of(req):
     return real_json.dumps(req).encode() + b"\n"
 
 
-def device():
-    d = SimDevice()
-    d.chunk = 40
+class StatefulDevice(SimDevice):
+    """The simulated signer with a blockchain state that MOVES: every block taken by an advance changes the best block the state
+    query reports.  `fail_block` = k makes the device stop answering (time-out) when the metadata of block k of an advance
+    arrives - after it has taken the blocks before."""
+    def __init__(self, fail_block=None):
+        super().__init__()
+        self.chunk = 40
+        self.fail_block = fail_block
+        self.taken = 0
+
+    def _after_block(self, b, cmd, OP_META, OP_PARTIAL, OP_SUCCESS):
+        if cmd == 0x10:
+            self.taken += 1
+            for sel in list(self.hashes.keys()) or [0x01]:
+                self.hashes[sel] = [(self.taken * 17 + sel) & 0xff] * 32
+        return SimDevice._after_block(self, b, cmd, OP_META, OP_PARTIAL, OP_SUCCESS)
+
+    def handle(self, apdu):
+        from sim.base import blist, raise_fault, FAULT_TIMEOUT
+        a = blist(apdu)
+        if self.fail_block is not None and len(a) > 2 and a[1] == 0x10 and a[2] == 0x03 and self.block_op is not None \
+                and len(self.block_op["blocks"]) == self.fail_block:
+            raise_fault(FAULT_TIMEOUT)
+        return SimDevice.handle(self, apdu)
+
+
+def device(faulty=False):
+    from sim.ledger import SimDevice as _S   # noqa: F401
+    d = StatefulDevice(fail_block=1 if faulty else None)
+    # the state query reads these: give every selector an explicit initial value
+    from harness.c13 import STATE_FIELDS
+    d.hashes = {sel: [sel & 0xff] * 32 for (_, sel) in STATE_FIELDS}
     return d
 
 
-def sequential(order, reqs):
-    """The requests served alone, one after the other, by a fresh manager: ([apdu list per request], [reply bytes per request])."""
-    proto, dongle, world = make_stack(device(), connect=False)
+# ---- recording what the transport did, and replaying one request's block in isolation
+
+class _Recorder:
+    """Wraps sim.base.Transport.exchange for the duration of a run: per world, the outcome (answer or exception) of every exchange."""
+    def __enter__(self):
+        import sim.base as sb
+        self.orig = sb.Transport.exchange
+        orig = self.orig
+
+        def exchange(tr, apdu, timeout=20000):
+            w = tr.world
+            if not hasattr(w, "outcomes"):
+                w.outcomes = []
+            try:
+                r = orig(tr, apdu, timeout)
+            except BaseException as e:
+                if type(e).__name__ not in ("_Abort",):
+                    w.outcomes.append(("raise", e))
+                raise
+            w.outcomes.append(("ok", r))
+            return r
+        sb.Transport.exchange = exchange
+        return self
+
+    def __exit__(self, *a):
+        import sim.base as sb
+        sb.Transport.exchange = self.orig
+        return False
+
+
+class _Mismatch(Exception):
+    pass
+
+
+class ReplayDevice:
+    """Answers exactly what was recorded, provided it is sent exactly what was recorded."""
+    def __init__(self, exchanges):
+        self.exchanges = list(exchanges)      # [(apdu bytes, outcome)]
+        self.bad = None
+
+    def handle(self, apdu):
+        if not self.exchanges:
+            self.bad = "an exchange the recorded block does not have: %s" % bytes(apdu).hex()
+            raise _Mismatch(self.bad)
+        want, outcome = self.exchanges.pop(0)
+        if bytes(apdu) != want:
+            self.bad = "sent %s where the recorded block has %s" % (bytes(apdu).hex(), want.hex())
+            raise _Mismatch(self.bad)
+        if outcome[0] == "raise":
+            raise outcome[1]
+        return outcome[1]
+
+
+def isolated(req, block, reply):
+    """The request served by a FRESH manager against a device that replays the recorded block: does the fresh manager send
+    the same APDUs (and reconnect in the same places), and does it build the same reply?  If not, the long-running manager's
+    reply / exchanges depended on something other than this request and the device's answers to it."""
+    events, outcomes = block
+    exch = [(bytes(e[1]), o) for e, o in zip([e for e in events if e[0] == "apdu"], outcomes)]
+    dev = ReplayDevice(exch)
+    proto, dongle, world = make_stack(dev, connect=True)
+    # a block that starts with the closing of the link is that of a manager with a reconnection pending (earlier link failure)
+    proto._comm_issue = bool(events) and events[0][0] == "close"
+    n0 = len(world.log)
+    try:
+        r = proto.handle_request(real_json.loads(line_of(req)))
+    except BaseException as e:
+        reraise_control_flow(e)
+        note("isolated run raised", type(e).__name__, str(e)[:200], dev.bad)
+        return False
+    got = [(e[0],) + ((bytes(e[1]),) if e[0] == "apdu" else ()) for e in world.log[n0:]]
+    want = [(e[0],) + ((bytes(e[1]),) if e[0] == "apdu" else ()) for e in events]
+    if dev.bad or dev.exchanges or got != want:
+        note("isolated run differs", dev.bad, len(dev.exchanges), len(got), len(want))
+        return False
+    return real_json.dumps(r, sort_keys=True).encode() + b"\n" == reply
+
+
+def sequential(order, reqs, faulty=False):
+    """The requests served one after the other by one fresh manager: ({i: apdu list}, {i: reply bytes}, isolation verdict).
+    The isolation verdict says whether every request, re-run by a fresh manager of its own against the recorded device
+    answers of its block, yields the same exchanges and the same reply."""
+    proto, dongle, world = make_stack(device(faulty), connect=False)
     proto.initialize_device()
-    apdus, replies = {}, {}
+    world.outcomes = []
+    apdus, replies, blocks = {}, {}, {}
     for i in order:
-        n0 = len(world.apdus())
+        n0, k0 = len(world.log), len(world.outcomes)
         r = proto.handle_request(real_json.loads(line_of(reqs[i])))
-        apdus[i] = [bytes(a) for a in world.apdus()[n0:]]
+        events = list(world.log[n0:])
+        apdus[i] = [bytes(e[1]) for e in events if e[0] == "apdu"]
         replies[i] = real_json.dumps(r, sort_keys=True).encode() + b"\n"
-    return apdus, replies
+        blocks[i] = (events, list(world.outcomes[k0:]))
+    ok = all(isolated(reqs[i], blocks[i], replies[i]) for i in order)
+    return apdus, replies, ok
 
 
-def serve_concurrently(reqs, choices):
+def serve_concurrently(reqs, choices, faulty=False):
     """Real TCPServer.run with all clients waiting.  Returns (device apdu log after bring-up, bytes received per client, sched)."""
-    proto, dongle, world = make_stack(device(), connect=False)
+    proto, dongle, world = make_stack(device(faulty), connect=False)
     sched = Sched(choices)
+    install_conditions(sched)
     net = Net(sched, [line_of(r) for r in reqs])
     world.fault_hook = lambda k, apdu: sched.yield_point("exchange")
     saved = (socketserver.socket, socketserver._ServerSelector, socketserver.os)
@@ -402,34 +629,43 @@ def serve_concurrently(reqs, choices):
     finally:
         sched.active = False
         sched.abort()
+        uninstall_conditions()
         socketserver.socket, socketserver._ServerSelector, socketserver.os = saved
     if mark["n"] is None:
         raise Inconclusive("the server never started serving")
     return [bytes(a) for a in world.apdus()[mark["n"]:]], net, sched
 
 
-def judge(reqs, log, net):
+def judge(reqs, log, net, faulty=False):
     n = len(reqs)
     for order in itertools.permutations(range(n)):
-        apdus, replies = sequential(order, reqs)
+        apdus, replies, isolated_ok = sequential(order, reqs, faulty)
         flat = [a for i in order for a in apdus[i]]
         if flat == log and all(net.received[i] == replies[i] for i in range(n)):
-            return True
+            # the concurrent run is this sequential one; and in it every reply is built from its own request's exchanges
+            return isolated_ok
     return False
 
 
-def run(reqs, choices):
+def run(reqs, choices, faulty=False):
     import sim.base as sb
     sb.REAL_HEX[0] = True          # the replies are rendered to real JSON lines
     try:
-        return _run(reqs, choices)
+        with _Recorder():
+            if sb.in_crosshair():
+                # requests, device and replies are concrete; only the schedule variables are symbolic and they are looked at in
+                # Sched.split alone: the server code itself runs at native speed
+                from crosshair.tracers import NoTracing
+                with NoTracing():
+                    return _run(reqs, choices, faulty)
+            return _run(reqs, choices, faulty)
     finally:
         sb.REAL_HEX[0] = False
 
 
-def _run(reqs, choices):
+def _run(reqs, choices, faulty):
     try:
-        log, net, sched = serve_concurrently(reqs, choices)
+        log, net, sched = serve_concurrently(reqs, choices, faulty)
     except Inconclusive:
         raise
     except Exception as e:
@@ -437,31 +673,35 @@ def _run(reqs, choices):
         import traceback
         note("serving raised", type(e).__name__, "".join(traceback.format_exception(e))[-600:])
         return False
-    if sched.elsewhere:
-        note("threads blocked outside decision points", len(sched.elsewhere))
     note("schedule", sched.decisions, "max runnable", sched.max_runnable, "bound exhausted", sched.exhausted)
-    return judge(reqs, log, net)
+    return judge(reqs, log, net, faulty)
 
 
-KMAX = 10
+NCHOICES = 14
+_NAMES = ["c%d" % j for j in range(NCHOICES)]
+
+
+def _zero(**kw):
+    d = {n: 0 for n in _NAMES}
+    d.update(kw)
+    return d
 
 
 @obligation(tier="quick", parts=len(SETS), timeout=300,
-            part_names=lambda p: " | ".join(CATALOGUE[i][0] for i in SETS[p]),
-            bounds="2 or 3 (T: up to 4) simultaneously connected clients (9 (T: 14) request sets from: authorized sign (2 variants), advanceBlockchain, "
-                   "blockchainState, signerHeartbeat, getPubKey - partition); decision points: select() of the accept loop, every device "
-                   "exchange, every socket read and write; schedule: 10 solver variables c0..c9, one consumed per decision point with "
-                   "more than one runnable party (later ones take the first party); preemption inside other code is not modelled; "
-                   "simulated sockets instead of TCP; forking servers not modelled (inconclusive)",
-            examples=[(0, dict(c0=0, c1=0, c2=0, c3=0, c4=0, c5=0, c6=0, c7=0, c8=0, c9=0)),
-                      (0, dict(c0=1, c1=0, c2=0, c3=0, c4=0, c5=0, c6=0, c7=0, c8=0, c9=0)),
-                      (6, dict(c0=2, c1=1, c2=0, c3=0, c4=0, c5=0, c6=0, c7=0, c8=0, c9=0)),
-                      (1, dict(c0=1, c1=1, c2=1, c3=1, c4=1, c5=1, c6=1, c7=1, c8=1, c9=1))])
-def schedules(c0: int, c1: int, c2: int, c3: int, c4: int, c5: int, c6: int, c7: int, c8: int, c9: int) -> bool:
+            part_names=lambda p: " | ".join(CATALOGUE[i][0] for i in SETS[p]) + (" [device abandons the advance]" if p in FAULTY else ""),
+            bounds="2, 3 or 4 (T: up to 5) simultaneously connected clients (11 (T: 17) request sets from: authorized sign, hash sign, "
+                   "advanceBlockchain, blockchainState, signerHeartbeat, getPubKey - partition); decision points: select() of the accept "
+                   "loop, every device exchange, every socket read and write; schedule: 14 solver variables c0..c13, one consumed per "
+                   "decision point with more than one runnable party (later ones take the first party); preemption inside other code is "
+                   "not modelled; simulated sockets instead of TCP; forking servers not modelled (inconclusive)",
+            examples=[(0, _zero()), (0, _zero(c0=1)), (6, _zero(c0=2, c1=1)), (1, {n: 1 for n in _NAMES}), (9, _zero(c0=3, c1=1, c2=1))])
+def schedules(c0: int, c1: int, c2: int, c3: int, c4: int, c5: int, c6: int, c7: int, c8: int, c9: int,
+              c10: int, c11: int, c12: int, c13: int) -> bool:
     """
-    pre: 0 <= c0 <= 3 and 0 <= c1 <= 3 and 0 <= c2 <= 3 and 0 <= c3 <= 3 and 0 <= c4 <= 3
-    pre: 0 <= c5 <= 3 and 0 <= c6 <= 3 and 0 <= c7 <= 3 and 0 <= c8 <= 3 and 0 <= c9 <= 3
+    pre: 0 <= c0 <= 4 and 0 <= c1 <= 4 and 0 <= c2 <= 4 and 0 <= c3 <= 4 and 0 <= c4 <= 4
+    pre: 0 <= c5 <= 4 and 0 <= c6 <= 4 and 0 <= c7 <= 4 and 0 <= c8 <= 4 and 0 <= c9 <= 4
+    pre: 0 <= c10 <= 4 and 0 <= c11 <= 4 and 0 <= c12 <= 4 and 0 <= c13 <= 4
     post: _
     """
     reqs = [CATALOGUE[i][1] for i in SETS[part()]]
-    return run(reqs, [c0, c1, c2, c3, c4, c5, c6, c7, c8, c9])
+    return run(reqs, [c0, c1, c2, c3, c4, c5, c6, c7, c8, c9, c10, c11, c12, c13], faulty=part() in FAULTY)
